@@ -1311,7 +1311,7 @@ class Context:
         finally:
             self._current_vm = outer_vm
 
-        return self._to_python(result)
+        return self._result_to_python(result)
 
     def _call_function(self, func: JSFunction, args: list) -> Any:
         """Call a JavaScript function with the given arguments.
@@ -1334,7 +1334,7 @@ class Context:
             The value of the variable, converted to Python types
         """
         value = self._globals.get(name, UNDEFINED)
-        return self._to_python(value)
+        return self._result_to_python(value)
 
     def set(self, name: str, value: Any) -> None:
         """Set a global variable.
@@ -1344,6 +1344,21 @@ class Context:
             value: Value to set (Python value, will be converted)
         """
         self._globals[name] = self._to_js(value)
+
+    def _result_to_python(self, value: JSValue) -> Any:
+        """What eval() and get() hand back.
+
+        A structure that contains itself (var o = {}; o.self = o; also the
+        built-in constructors, whose prototype points back at them) or that is
+        nested deeper than the host can follow has no Python value: that is a
+        TypeError for the embedder, not the host's RecursionError.
+        """
+        try:
+            return self._to_python(value)
+        except RecursionError:
+            raise JSTypeError(
+                "Cannot convert a circular or too deeply nested structure to a Python value"
+            ) from None
 
     def _to_python(self, value: JSValue) -> Any:
         """Convert a JavaScript value to Python."""
